@@ -359,7 +359,7 @@ def _dec(t):
 
 
 def build_items(tier):
-    sources = all_sources(4)
+    sources = all_sources(4 if tier == "quick" else 5)
     cases = []
     for kind, tree in sources:
         for fallback in (False, True):
@@ -430,7 +430,7 @@ def run(tier, seed, t0):
         k = seed % len(items)
         items = items[k:] + items[:k]
     part = report.merge_all(report.pmap(work, items))
-    bounds = {"sources": nsrc, "max_nodes": 4, "names": ["a", "b"], "destinations": DESTS, "write_into": [False, True],
+    bounds = {"sources": nsrc, "max_nodes": 4 if tier == "quick" else 5, "names": ["a", "b"], "destinations": DESTS, "write_into": [False, True],
               "remote_cwd": ["/", "/w"], "block_sizes": [1, 8192], "servers": ["MLSD", "LIST fallback"], "encodings": ["utf-8", "latin-1 with non-ASCII names (trees <= 3 nodes)"],
               "old_entries": "LIST-only server, entries dated 2024-02-29, 2023-12-31 23:59:59, 1971, 2099, 2000-02-29 seen from 2025-06-01",
               "short_reading_backends": "read() capped at 1 or 3 bytes on the client's and the server's backend (trees <= 3 nodes)",
